@@ -4,24 +4,39 @@ from vlib.runner import Batch
 ID = "C14"
 LEAN_PROPS = ["FcpptProofs.Props.C14"]
 # -g1: line tables only — the harness instantiates several thousand templates and full debug info doubles its build time
-HARNESS = {"src": "harness/c14.cpp", "flags": ["-g1"]}
+# second translation unit (member operators): compiled in parallel with the first.  vlib/harness.py joins every entry of
+# repo_srcs to the fcppt tree with os.path.join, which leaves an absolute path as it is.
+import os as _os
+_HDIR = _os.path.join(_os.path.dirname(_os.path.dirname(_os.path.abspath(__file__))), "harness")
+HARNESS = {"src": "harness/c14.cpp", "repo_srcs": [_os.path.join(_HDIR, "c14_member.cpp"), _os.path.join(_HDIR, "c14_extra.cpp")], "flags": ["-g1"]}
 TIE = ("hand-written model (FcpptModel/Model/C14.lean: row-major storage, index_absolute / row-view index arithmetic, every "
        "operator as the init/fold the header writes) + differential correspondence against the real templates on long scalars, "
-       "static storage, row views and a buffer-view storage; the harness additionally recomputes every result naively on plain arrays")
+       "static storage, row views and a buffer-view storage; the harness additionally recomputes every result naively on plain arrays. "
+       "Member operators (+= -= *= =, scalar *=, writes through element / row references) are modelled as in-place updates of a memory "
+       "(FcpptModel/Model/C14/Member.lean) with operands that are references into it, and run on worlds in which every object can alias "
+       "every other (same object, rows of one matrix, overlapping views, scalar = element of the target)")
 RULE = ("trios M a b: digest over all 256 2x2 matrices C over {-1,0,1,2} of (AB)C, A(BC), A(B+C), AB+AC, (A+B)C, AC+BC for the 2x2 "
         "matrices number a, b; all 65536 (a,b) = all 256^3 triples (static storage, both tiers; buffer-view storage: thorough all, "
         "quick a seeded sample of pairs). pairs M a: digest over all b of AB, (AB)^T, B^T A^T, A+B, A-B, det(AB), det A, det B, ==. "
         "sq: determinant, adjugate, A adj A, adj A A, inverse, identity for every 2x2 matrix and random 1x1..4x4 with entries in [-9,9]. "
         "mat/mul/mv/del/vec/cross/builders/bits: seeded random matrices (1x1 .. 4x4, 2x3, 3x2, 3x4, 4x3, 1x4, 4x1) and vectors/dims of "
-        "dimension 1-4 with entries in [-9,9] in every instantiated storage combination. evaluations = matrix triples / pairs / single "
+        "dimension 1-4 with entries in [-9,9] in every instantiated storage combination. vecs/crs/sqs/mvs: digests of the vec / cross / sq / mv "
+        "lines over a full small domain (all pairs of vectors and dims over {-1,0,1,2}, all 3x3 over {-1,0,1}, all 2x3 x 3-vectors). "
+        "mem/mems: member operators on a world (static vectors A B, static matrices M P, a buffer with mutable / read-only views of vectors, "
+        "matrices and rows): every statement target x operand x operator (+= -= *= = ctor, scalar *= with every element of every object, set), "
+        "digest over all a in {-1,0,1,2}^C and a set of b; the result of a line is every cell of the world afterwards. nb/md/tp/inf: vector o dim, "
+        "contents, is_quadratic, to_dim, to_vector, unit, mod, ceil_div_signed, transform_point/direction, infinity_norm. "
+        "evaluations = matrix triples / pairs / single "
         "operand tuples; an op is non-trivial unless all its operands are zero; distinct = distinct op lines.")
 ASSUMPTIONS = [
     "scalars are exact integers: the C++ side uses long with |entries| <= 1000 (asserted by harness and driver), so no result overflows; UBSan would report one",
     "fcppt::array::object<T,N> / init / map / apply / push_back are index-wise (Vector.ofFn); fcppt::algorithm::fold / all_of over int_range_count<N> visit 0..N-1 in order",
     "std::lexicographical_compare by its standard specification; integer / truncates towards zero (Int.tdiv)",
     "a math object is its storage: static_storage, matrix::detail::row_view (offset = index * columns) and a buffer view are read only through operator[] below storage_size",
+    "objects in memory: a static storage is its array of cells, a view refers to cells of another object; fcppt::algorithm::loop over int_range_count<N> runs 0..N-1 in order; "
+    "a by-value parameter is copied at the call; the implicit copy assignment of a class copies its members (row_view: reference + offset)",
 ]
-TRUSTED = ["harness/c14.cpp (incl. its buffer_view storage and the naive reference computations) and the digest/line protocol (vh.hpp, Proto.lean)",
+TRUSTED = ["harness/c14.cpp, c14_member.cpp, c14_extra.cpp (incl. their buffer-view storages const_view / mut_view and the naive reference computations) and the digest/line protocol (vh.hpp, Proto.lean)",
            "Mathlib v4.33: Matrix, det, adjugate, mulVec, dotProduct, crossProduct and the theorems about them used in FcpptProofs/C14",
            "g++ 12 + ASan/UBSan as witness for memory safety / absence of overflow of the instantiations on the exercised inputs"]
 
@@ -52,9 +67,254 @@ def rvec(r, n, lo=-9, hi=9):
     return [r.range(lo, hi) for _ in range(n)]
 
 
+# ---------------------------------------------------------------- member operators (ops mem / mems)
+MEM_SHAPES_V = [(3, 1), (3, 2), (3, 3), (3, 4), (2, 2), (2, 3), (4, 4), (1, 1)]
+MEM_SHAPES_D = [(3, 1), (3, 2), (3, 3), (3, 4)]
+
+
+def enum_a(c, idx):
+    return [((idx >> (2 * j)) & 3) - 1 for j in range(c)]
+
+
+def enum_bq(c, idx):
+    return [2 if (idx >> j) & 1 else -1 for j in range(c)]
+
+
+def derive_ma(r, a, b):
+    rows = [a, b, [x + 2 * y + 3 for x, y in zip(a, b)], [2 * x - y - 5 for x, y in zip(a, b)]]
+    return [e for row in rows[:r] for e in row]
+
+
+def derive_mb(r, a, b):
+    return [10 * (i + 1) + j + y - x for i in range(r) for j, (x, y) in enumerate(zip(a, b))]
+
+
+def enum_bs(c, idx):
+    return [2 if (j + idx) % 2 else -1 for j in range(c)]
+
+
+def mems_count(c, e):
+    return 4 ** c * (4 ** c if (e == "f" or c <= 2) else 2 ** c if e == "q" else 2)
+
+
+def mems_refine(t):
+    fam, r, c, e = t[1], int(t[2]), int(t[3]), t[4]
+    allb = e == "f" or c <= 2
+    out = []
+    for ia in range(4 ** c):
+        for ib in range(4 ** c if allb else 2 ** c if e == "q" else 2):
+            a = enum_a(c, ia)
+            b = enum_a(c, ib) if allb else enum_bq(c, ib) if e == "q" else enum_bs(c, ib)
+            out.append(f"mem {fam} {r} {c} {vs(a)} {vs(b)} {vs(derive_ma(r, a, b))} {vs(derive_mb(r, a, b))} " + " ".join(t[5:]))
+    return out
+
+
+def vec_objects(fam, r, c, targets):
+    """descriptors of the vector-like objects of the world (fam, r, c): the mutable ones (targets) or all operands"""
+    k = r * c
+    if fam == "d":
+        mut = ["A", "B", "U1", f"U{1 + c}"]
+        return mut[:1] + mut[2:] if targets else mut + ["U0", "U2", "C1", f"C{1 + c}"]
+    mut = ["A", "B"] + [f"M{i}" for i in range(r)] + [f"P{r - 1}", "U1", f"U{1 + c}"] + [f"Q1.{i}" for i in range(r)]
+    if targets:
+        return [d for d in mut if d != "B"]
+    return mut + [f"N{i}" for i in range(r)] + ["P0", "U0", "U2", "C0", "C1", f"C{1 + c}", f"Q{1 + k}.0", "Q0.0", f"Q2.{r - 1}"]
+
+
+def mat_objects(r, c, targets):
+    k = r * c
+    mut = ["M", "P", "V1", f"V{1 + k}"]
+    return [d for d in mut if d != "P"] if targets else mut + ["V0", "V2", "W1", f"W{1 + k}", "W0"]
+
+
+def scalar_args(fam, r, c):
+    """every way a scalar argument can refer into the world, and independent values"""
+    out = ["k0", "k1", "k-1", "k2", "k-3"]
+    for d in dict.fromkeys(vec_objects(fam, r, c, False)):
+        out += [f"@{d}.{i}" for i in range(c)]
+    if fam == "v":
+        k = r * c
+        for d in ("M", "P", "V1", f"V{1 + k}", "V0", "W2"):
+            out += [f"@{d}.{i}" for i in sorted({0, 1, c - 1, c, k // 2, k - 2, k - 1} & set(range(k)))]
+    return list(dict.fromkeys(out))
+
+
+def member_patterns(fam, r, c, full):
+    """single statements: every target x every operand x every operator (full), or the matrix-level / row-level core"""
+    pats = []
+    vt, vo = vec_objects(fam, r, c, True), list(dict.fromkeys(vec_objects(fam, r, c, False)))
+    if not full:
+        vt = [d for d in vt if d in ("A", "M0", f"M{r - 1}", "U1", "Q1.0")]
+        vo = [d for d in vo if d in ("A", "B", "M0", f"M{r - 1}", "N0", "U0", "U1", "U2", "C1", "Q1.0", f"Q1.{r - 1}")]
+    for t in vt:
+        for x in vo:
+            for op in ("add", "sub", "mul", "asg") + (("ctor",) if c <= 3 else ()):
+                pats.append(f"{t} {op} {x}")
+        for x in scalar_args(fam, r, c):
+            if full or x[0] == "k" or x.startswith("@" + t + ".") or x.startswith("@M.") or x.startswith("@A."):
+                pats.append(f"{t} smul {x}")
+    if fam == "v":
+        for t in mat_objects(r, c, True):
+            for x in mat_objects(r, c, False):
+                for op in ("add", "sub", "asg", "ctor"):
+                    pats.append(f"{t} {op} {x}")
+            for x in scalar_args(fam, r, c):
+                pats.append(f"{t} smul {x}")
+    return pats
+
+
+def random_stmt(rr, fam, r, c):
+    k = r * c
+    if fam == "v" and rr.chance(1, 4):
+        t = rr.choice(mat_objects(r, c, True) + ["P"])
+        op = rr.choice(["add", "sub", "asg", "ctor", "smul", "smul", "set"])
+        if op == "smul":
+            return f"{t} smul {rr.choice(scalar_args(fam, r, c))}" if rr.chance(2, 3) else f"{t} smul k{rr.range(-9, 9)}"
+        if op == "set":
+            return f"{t} set {rr.below(k + 1)}:{rr.range(-9, 9)}"
+        return f"{t} {op} {rr.choice(mat_objects(r, c, False) + [f'V{rr.below(k + 3)}'])}"
+    t = rr.choice(vec_objects(fam, r, c, True) + ["B"])
+    op = rr.choice(["add", "sub", "mul", "asg", "ctor", "smul", "smul", "set"])
+    if op == "smul":
+        return f"{t} smul {rr.choice(scalar_args(fam, r, c))}" if rr.chance(2, 3) else f"{t} smul k{rr.range(-9, 9)}"
+    if op == "set":
+        return f"{t} set {rr.below(c + 1)}:{rr.range(-9, 9)}"
+    return f"{t} {op} {rr.choice(vec_objects(fam, r, c, False) + [f'U{rr.below(2 * k + 3 - c)}'])}"
+
+
+def systematic_batches(rng, thorough):
+    """all pairs over a small domain for the observers that were only run on random operands"""
+    r = rng.fork("systematic")
+    ops = []
+    for n in (1, 2, 3, 4):
+        for kind, modes in (("v", ["ss", "rr", "bb"] + (["sr", "rb", "bs"] if n in (2, 3) else [])), ("d", ["ss", "bb"] + (["sb"] if n in (2, 3) else []))):
+            for lr in modes:
+                ias = range(4 ** n) if (thorough or n < 4) else sorted({r.below(256) for _ in range(32)} | {0, 85, 255})
+                ops += [f"vecs {kind} {lr} {n} {ia}" for ia in ias]
+    yield Batch("vec-all-pairs", ops, exhaustive=thorough,
+                note="every operator / comparison / cast of the vec line on ALL pairs of vectors and dims over {-1,0,1,2}, dimension 1-3 "
+                     "(dimension 4: all 65536 pairs thorough, 35 x 256 quick), every storage combination")
+    ops = [f"crs {lr} {ia}" for lr in ("ss", "rr", "bb", "sr", "rb", "bs") for ia in range(64)]
+    yield Batch("cross-all-pairs", ops, exhaustive=True, note="cross, dot, Lagrange identity on all 4096 pairs of 3-vectors over {-1,0,1,2}, six storage combinations")
+    ops = [f"sqs s {a}" for a in range(81)] + [f"sqs b {a}" for a in (range(81) if thorough else sorted({r.below(81) for _ in range(20)}))]
+    yield Batch("3x3-all-trits", ops, exhaustive=thorough, note="determinant, adjugate, A adj A, adj A A, inverse of ALL 19683 3x3 matrices over {-1,0,1} (static; buffer view: all thorough, sample quick)")
+    ops = [f"mvs s s {a}" for a in range(4096)]
+    for mm, vm in (("s", "b"), ("s", "r"), ("b", "s"), ("b", "b"), ("b", "r")):
+        ops += [f"mvs {mm} {vm} {a}" for a in (range(4096) if thorough else sorted({r.below(4096) for _ in range(200)}))]
+    yield Batch("mv-2x3-all", ops, exhaustive=thorough, note="matrix * vector for ALL 2x3 matrices and 3-vectors over {-1,0,1,2} (static; other storage combinations: all thorough, sample quick)")
+    # == / != of matrices that differ in exactly one entry, every position, every shape
+    ops = []
+    for (rr, cc) in MAT_SHAPES:
+        a = [r.range(-9, 9) for _ in range(rr * cc)]
+        for pos in range(rr * cc):
+            b = list(a)
+            b[pos] += r.choice([-1, 1])
+            for lr in (["ss", "bb", "sb"] if (rr, cc) in MAT_VIEWS else ["ss"]):
+                ops.append(f"mat {lr} {rr} {cc} {vs(a)} {vs(b)} {r.range(-9, 9)} {pos // cc} {pos % cc}")
+    yield Batch("mat-one-entry-differs", ops, note="matrix == != + - on operands that differ in exactly one entry, every position of every shape")
+    # delete_row_and_column at every (row, column) of every shape; signed permutation matrices (det = +-1: sign and index errors of
+    # determinant / adjugate / inverse show on them)
+    import itertools
+    ops = []
+    for (rr, cc) in DEL_SHAPES:
+        for dr in range(rr):
+            for dc in range(cc):
+                for m in ("sb" if (rr, cc) in DEL_VIEWS else "s"):
+                    ops.append(f"del {m} {rr} {cc} {dr} {dc} {vs([10 * i + j + 1 for i in range(rr) for j in range(cc)])}")
+                    ops.append(f"del {m} {rr} {cc} {dr} {dc} {vs(rvec(r, rr * cc))}")
+    for n in (2, 3, 4):
+        for perm in itertools.permutations(range(n)):
+            for signs in ([1] * n, [(-1) ** i for i in range(n)], [-1] + [1] * (n - 1), [r.choice([-1, 1]) for _ in range(n)]):
+                flat = [signs[i] if perm[i] == j else 0 for i in range(n) for j in range(n)]
+                ops.append(f"sq {'sb'[(sum(perm) + len(ops)) % 2]} {n} {vs(flat)}")
+    yield Batch("del-all-positions-permutations", ops, note="delete_row_and_column at every position of every shape; all signed permutation matrices 2x2, 3x3, 4x4 (unimodular: inverse exact)")
+
+
+def neighbour_batches(rng, thorough):
+    r = rng.fork("neighbour")
+    modes = ["ss", "rs", "bs", "sb", "rb", "bb"]
+    ops = []
+    for n in (1, 2, 3):
+        for ia in range(4 ** n):
+            for ib in range(4 ** n):
+                for lr in (modes if n < 3 else [modes[(ia + ib) % 6]]):
+                    ops.append(f"nb {lr} {n} {vs(enum_a(n, ia))} {vs(enum_a(n, ib))} {(ia + ib) % (n + 1)}")
+    for _ in range(10000 if thorough else 2000):
+        n = r.range(1, 4)
+        a = rvec(r, n) if r.chance(1, 2) else [r.range(-1, 2) for _ in range(n)]
+        b = [a[0]] * n if r.chance(1, 6) else (rvec(r, n) if r.chance(1, 2) else [r.range(-1, 2) for _ in range(n)])
+        ops.append(f"nb {r.choice(modes)} {n} {vs(a)} {vs(b)} {r.below(n + 1)}")
+    # mod / ceil_div_signed: every pair of dividend and divisor in [-7,7] in the first component (all sign combinations, exact
+    # quotients, zero), all pairs of 2-vectors over {-2,-1,0,1,2,3}
+    vmodes = ["ss", "rr", "bb", "sr", "rb", "bs"]
+    for x in range(-7, 8):
+        for y in range(-7, 8):
+            ops.append(f"md {vmodes[(x + y) % 6]} 1 {x} {y} {y}")
+            ops.append(f"md {vmodes[(x - y) % 6]} 3 {x},{y},{-x} {y},{x},{y} {y}")
+    dom = [-2, -1, 0, 1, 2, 3]
+    for a0 in dom:
+        for a1 in dom:
+            for b0 in dom:
+                for b1 in dom:
+                    ops.append(f"md {vmodes[(a0 + a1 + b0 + b1) % 6]} 2 {a0},{a1} {b0},{b1} {b0 if (a0 + b1) % 2 else b1}")
+    for _ in range(5000 if thorough else 1000):
+        n = r.range(1, 4)
+        ops.append(f"md {r.choice(vmodes)} {n} {vs(rvec(r, n))} {vs(rvec(r, n))} {r.choice([0, 1, -1, 2, -2, 3, -3, 5, -7, 9])}")
+    yield Batch("neighbour-vec-dim", ops, note="vector o dim (+ - * /), contents, is_quadratic, to_dim, to_vector, unit: all pairs over {-1,0,1,2} for dimension 1-3, random dimension 1-4; "
+                     "mod / ceil_div_signed: all dividend x divisor pairs in [-7,7], all pairs of 2-vectors over [-2,3], random")
+    ops = []
+    for _ in range(5000 if thorough else 1200):
+        k = r.below(4)
+        if k == 0:      # translation
+            m = [1, 0, 0, r.range(-9, 9), 0, 1, 0, r.range(-9, 9), 0, 0, 1, r.range(-9, 9), 0, 0, 0, 1]
+        elif k == 1:    # scaling
+            m = [r.range(-9, 9), 0, 0, 0, 0, r.range(-9, 9), 0, 0, 0, 0, r.range(-9, 9), 0, 0, 0, 0, 1]
+        else:
+            m = rvec(r, 16)
+        ops.append(f"tp {r.choice('sb')} {r.choice('srb')} {vs(m)} {vs(rvec(r, 3))}")
+    for a in range(256):
+        ops.append(f"inf {'sb'[a % 2]} 2 2 {vs(decode2(a))}")
+    for _ in range(3000 if thorough else 800):
+        rr, cc = r.choice(MAT_SHAPES)
+        ops.append(f"inf {r.choice('sb') if (rr, cc) in MAT_VIEWS else 's'} {rr} {cc} {vs(rvec(r, rr * cc))}")
+    yield Batch("neighbour-matrix", ops, note="transform_point / transform_direction (translations, scalings, random 4x4), infinity_norm (all 2x2 over {-1,0,1,2}, random shapes)")
+
+
+def member_batches(rng, thorough):
+    # ---- exhaustive over small vectors: every single statement (target x operand x operator, every aliasing pattern)
+    ops = []
+    for fam, shapes in (("v", MEM_SHAPES_V), ("d", MEM_SHAPES_D)):
+        for (r, c) in shapes:
+            full = r == 3
+            for pat in member_patterns(fam, r, c, full):
+                e = ("f" if c == 3 else "q") if thorough else ("s" if c == 4 else "q")
+                ops.append(f"mems {fam} {r} {c} {e} {pat}")
+    yield Batch("member-single", ops, exhaustive=True,
+                note="member operators += -= *= (object / scalar) and = : every target x operand x operator of the world (same object, rows of the "
+                     "same matrix, overlapping views, scalar = element of any object), all a in {-1,0,1,2}^C x b in {-1,0,1,2}^C (C<=2; C=3 thorough) / {-1,2}^C (C=3 quick, C=4 thorough) / two alternating b (C=4 quick)")
+    # ---- two-statement sequences, exhaustive over small vectors for the aliasing core; seeded longer sequences on [-9,9]
+    r2 = rng.fork("member-seq")
+    ops = []
+    core = ["A smul @A.0", "A add A", "A mul A", "M0 add M1", "M1 add M1", "M0 smul @M1.0", "M smul @M.1", "A asg M0", "M0 asg A", "M0 asg N1", "M0 asg M1", "A ctor M1", "M1 ctor M0",
+            "U1 add U0", "A sub A", "M sub M", "M add P", "Q1.0 add U1", "V1 smul @U1.0", "A set 0:2", "M set 1:-1"]
+    for c in (1, 2, 3):
+        for s1 in core:
+            for s2 in core:
+                ops.append(f"mems v 3 {c} q {s1} {s2}")
+    yield Batch("member-two-step", ops, exhaustive=True, note="all ordered pairs of 21 core statements (save-mutate-restore, scale after add, write then read through a view ...), dimension 1-3")
+    ops = []
+    for _ in range(15000 if thorough else 3000):
+        fam = r2.choice("vvvd")
+        r, c = r2.choice(MEM_SHAPES_V if fam == "v" else MEM_SHAPES_D)
+        k = r * c
+        n = r2.range(1, 4)      # at most 4 statements: entries in [-9,9] squared 4 times stay below 9^16 < 2^63 (no overflow in long)
+        ops.append(f"mem {fam} {r} {c} {vs(rvec(r2, c))} {vs(rvec(r2, c))} {vs(rvec(r2, k))} {vs(rvec(r2, k))} " + " ".join(random_stmt(r2, fam, r, c) for _ in range(n)))
+    yield Batch("member-random", ops, note="1-4 random statements on random worlds with entries in [-9,9] (all shapes, incl. out-of-range get_unsafe and non-existent views)")
+
+
 def nontrivial(op, result):
     t = op.split()
-    if t[0] in ("bits", "det0", "builders"):
+    if t[0] in ("bits", "det0", "builders", "mem", "mems", "vecs", "crs", "sqs", "mvs", "nb", "md", "tp", "inf"):
         return True
     if t[0] in ("pairs", "trios"):
         return any(int(x) != 0x55 for x in t[2:])      # 0x55 is the zero matrix
@@ -63,14 +323,37 @@ def nontrivial(op, result):
 
 def weight(op):
     t = op.split()
+    if t[0] == "mems":
+        return mems_count(int(t[3]), t[4])
+    if t[0] == "vecs":
+        return 4 ** int(t[3])
+    if t[0] in ("crs", "mvs"):
+        return 64
+    if t[0] == "sqs":
+        return 243
     return 256 if t[0] in ("pairs", "trios") else 1
+
+
+def enum_trits(n, idx):
+    return [(idx // 3 ** j) % 3 - 1 for j in range(n)]
 
 
 def refine(op):
     t = op.split()
+    if t[0] == "vecs":
+        n, ia = int(t[3]), int(t[4])
+        return [f"vec {t[1]} {t[2]} {n} {vs(enum_a(n, ia))} {vs(enum_a(n, ib))} {(ia + ib) % 7 - 3} {(ia + 2 * ib) % (n + 2)}" for ib in range(4 ** n)]
+    if t[0] == "crs":
+        return [f"cross {t[1]} {vs(enum_a(3, int(t[2])))} {vs(enum_a(3, ib))}" for ib in range(64)]
+    if t[0] == "sqs":
+        return [f"sq {t[1]} 3 {vs(enum_trits(5, lo) + enum_trits(4, int(t[2])))}" for lo in range(243)]
+    if t[0] == "mvs":
+        return [f"mv {t[1]} {t[2]} 2 3 {vs(enum_a(6, int(t[3])))} {vs(enum_a(3, iv))}" for iv in range(64)]
     if t[0] == "trios":
         a, b = vs(decode2(int(t[2]))), vs(decode2(int(t[3])))
         return [f"trio {t[1]} 2 {a} {b} {vs(decode2(c))}" for c in range(256)]
+    if t[0] == "mems":
+        return mems_refine(t)
     if t[0] == "pairs":
         a = vs(decode2(int(t[2])))
         return [f"pair {t[1]} 2 {a} {vs(decode2(b))}" for b in range(256)]
@@ -84,8 +367,8 @@ def batches(rng, tier):
                 note="determinant, adjugate, A adj A, adj A A, inverse, identity for all 256 matrices, static and buffer-view storage")
     yield Batch("2x2-pairs", [f"pairs {m} {a}" for m in "sb" for a in range(256)], exhaustive=True,
                 note="all 65536 pairs: product, transposes, sum, difference, det(AB), det A, det B, ==")
-    yield Batch("2x2-triples-static", [f"trios s {a} {b}" for a in range(256) for b in range(256)], exhaustive=True,
-                note="all 256^3 triples: associativity and both distributive laws, static storage")
+    yield Batch("2x2-triples-static", [f"trios s {a} {b}" for a in (range(256) if thorough else range(rng.fork("tri").below(4), 256, 4)) for b in range(256)], exhaustive=thorough,
+                note="all 256^3 triples (quick: a seed-rotated quarter of the left operands, 64 x 256 x 256): associativity and both distributive laws, static storage")
     r = rng.fork("trios-b")
     if thorough:
         ops = [f"trios b {a} {b}" for a in range(256) for b in range(256)]
@@ -186,6 +469,9 @@ def batches(rng, tier):
     for _ in range(100 * scale):
         ops.append("builders " + " ".join(str(r.range(-9, 9)) for _ in range(6)))
     yield Batch("vec-dim-random", ops, note="vectors and dims of dimension 1-4 in [-9,9], static / row-view / buffer-view operands; cross; builders")
+    yield from systematic_batches(rng, thorough)
+    yield from neighbour_batches(rng, thorough)
+    yield from member_batches(rng, thorough)
 
 
 MANIFEST = {
@@ -195,7 +481,11 @@ MANIFEST = {
                    "all N); associativity, distributivity, (AB)^T = B^T A^T, det(AB) = det A det B and A adj A = det A * 1 follow for all "
                    "sizes; dot/cross/length_square, builders, accessors, casts and comparisons are proved component-wise. The model is tied "
                    "to the code by a differential correspondence that is exhaustive over all 256^3 triples of 2x2 matrices over {-1,0,1,2} "
-                   "and seeded random for 3x3/4x4/non-square matrices and vectors of dimension 1-4, on static, row-view and buffer-view storage."),
+                   "and seeded random for 3x3/4x4/non-square matrices and vectors of dimension 1-4, on static, row-view and buffer-view storage. "
+                   "The member operators (+= -= *= =, scalar *=) are proved equal to the free operators on the values before the call under "
+                   "every aliasing the code supports (characterised exactly: noClobber_iff), for an aliased scalar without any condition; they are "
+                   "tied to the code by exhaustive single- and two-statement scenarios over every target x operand x operator of a world in which "
+                   "every object can alias every other."),
     "level_note": ("Trusted: Lean kernel + propext/Classical.choice/Quot.sound; Mathlib's definitions of det/adjugate; the hand-written "
                    "model's fidelity outside the exercised inputs; harness and digest protocol; long arithmetic without overflow on the "
                    "exercised inputs (UBSan). No sorry/axiom/native_decide."),
